@@ -560,7 +560,11 @@ func caseReply(r replyT) Case {
 	var w bytes.Buffer
 	err := absnfs.EncodeRPCReply(&w, rep)
 	gout := append([]byte{}, w.Bytes()...)
-	t := tagger{"variable_length_item": 1, "reply": 1, fmt.Sprintf("reply_status=%d", r.status): 1, fmt.Sprintf("reply_accept=%d", r.accept): 1}
+	st := fmt.Sprintf("reply_status=%d", r.status)
+	if r.status > 1 {
+		st = "reply_status=other"
+	}
+	t := tagger{"variable_length_item": 1, "reply": 1, st: 1, fmt.Sprintf("reply_accept=%d", r.accept): 1}
 	return Case{Kind: "reply-encode", Tags: t,
 		Coq:  fmt.Sprintf("KReply (mkReply (n %d) (n %d) (n %d) (n %d) %s %s) %s", r.xid, r.status, r.accept, r.vf, hx(r.vb), cd, hx(gout)),
 		Text: fmt.Sprintf("EncodeRPCReply(xid=%d status=%d accept=%d verf(%d,%d bytes) data kind %d) = %s err=%v", r.xid, r.status, r.accept, r.vf, len(r.vb), r.dkind, shortHex(gout), err)}
@@ -934,7 +938,12 @@ func genC13(r *Rand, idx int, tier string) Case {
 	switch {
 	case x < 110:
 		n := randStrLen(r)
-		return caseStr(randBytes(r, n, !r.Chance(12)), randRest(r), "string-roundtrip")
+		withNul := r.Chance(12)
+		b := randBytes(r, n, !withNul)
+		if withNul && n > 0 && n < 48 {
+			b[r.Intn(n)] = 0
+		}
+		return caseStr(b, randRest(r), "string-roundtrip")
 	case x < 150:
 		return caseU32(PickU32(r, 0, 1, 255, 256, 65535, 1<<31, 0xffffffff, uint32(r.U64()), uint32(r.U64())), randRest(r))
 	case x < 170:
